@@ -18,19 +18,22 @@
 (* that is the whole difficulty of the format, and what ObjAt / LayerAt state.*)
 (* Generated files keep the object table directly behind the layer header     *)
 (* (offset 52), where the library reads it and where the offset says it is.   *)
-(* Five object types are given records here: background models (type 1),     *)
-(* position markers (5), pop ranges (40), environment sets (13) and exit      *)
-(* ranges (41, a trigger box with a zone line behind it).  Layout recalled from Lumina's layer       *)
+(* Six object types are given records here: background models (type 1),      *)
+(* position markers (5), shared groups (6), environment sets (13), pop ranges *)
+(* (40) and exit ranges (41, a trigger box with a zone line behind it).  Layout recalled from Lumina's layer       *)
 (* parser; offline only the library documents it: regression level.           *)
 EXTENDS Assets16
 
 TypeBg == 1
 TypeMarker == 5
+TypeShared == 6
 TypeEnv == 13
 TypePop == 40
 TypeExit == 41
 \* background model: model path and collision path offsets, collision kind, attribute mask and attribute, collision configuration,
 \*                   three flag bytes (visible, shadow, light shadow), a byte, a float
+\* shared group: asset path offset, door state, overridden members offset and count, rotation state, three flag bytes, a byte,
+\*               bound path instance, move path settings, a flag byte, 3 bytes, transform state, colour state
 \* position marker: kind, two comment offsets
 \* pop range: kind, positions offset and count, a float, an index byte
 \* environment set: asset path offset, bound instance, shape, a flag byte, a priority byte, 2 bytes, a float, an integer, two floats, sound path offset
@@ -40,6 +43,8 @@ ObjData(b, o, type) ==
   IF type = TypeMarker THEN <<U32n(b, o), FromLE(b, o + 4), FromLE(b, o + 8)>>
   ELSE IF type = TypeBg THEN <<FromLE(b, o), FromLE(b, o + 4), U32n(b, o + 8), FromLE(b, o + 12), FromLE(b, o + 16), FromLE(b, o + 20),
                                b[o + 25] # 0, b[o + 26] # 0, b[o + 27] # 0, FromLE(b, o + 28)>>
+  ELSE IF type = TypeShared THEN <<FromLE(b, o), U32n(b, o + 4), FromLE(b, o + 8), FromLE(b, o + 12), U32n(b, o + 16), b[o + 21] # 0, b[o + 22] # 0,
+                                   b[o + 23] # 0, FromLE(b, o + 24), FromLE(b, o + 28), b[o + 33] # 0, U32n(b, o + 36), U32n(b, o + 40)>>
   ELSE IF type = TypePop THEN <<U32n(b, o), FromLE(b, o + 4), FromLE(b, o + 8), FromLE(b, o + 12), b[o + 17]>>
   ELSE IF type = TypeEnv THEN <<FromLE(b, o), FromLE(b, o + 4), U32n(b, o + 8), b[o + 13] # 0, b[o + 14], FromLE(b, o + 16), FromLE(b, o + 20),
                                 FromLE(b, o + 24), FromLE(b, o + 28), FromLE(b, o + 32)>>
